@@ -3,6 +3,7 @@
 (* 96-bit nonce) and HChaCha20 (draft-irtf-cfrg-xchacha section 2.2).    *)
 (* State: sequence of 16 Words32 words, index 1..16 = RFC words 0..15.   *)
 EXTENDS Naturals, Sequences, Words32
+LOCAL INSTANCE SequencesExt
 
 \* "expand 32-byte k"
 ChaChaSigma == <<101, 120, 112, 97, 110, 100, 32, 51, 50, 45, 98, 121, 116, 101, 32, 107>>
@@ -39,18 +40,16 @@ ChaChaDoubleRound(s) ==
          d2[3], d3[3], d0[3], d1[3],
          d1[4], d2[4], d3[4], d0[4]>>
 
-RECURSIVE ChaChaRounds(_, _)
-ChaChaRounds(s, n) == IF n = 0 THEN s ELSE ChaChaRounds(ChaChaDoubleRound(s), n - 1)
-
-\* the 20-round permutation (10 double rounds), no feed-forward
-ChaCha20Perm(s) == ChaChaRounds(s, 10)
+\* the 20-round permutation (10 double rounds), no feed-forward.  FoldLeft is Java-overridden:
+\* iterative and strict per step, so no deep lazy chain builds up across rounds.
+ChaCha20Perm(s) == FoldLeft(LAMBDA acc, i : ChaChaDoubleRound(acc), s, <<1, 2, 3, 4, 5, 6, 7, 8, 9, 10>>)
 
 \* block function with the counter given as a Words32 word
 ChaCha20BlockW(key32, counterW, nonce12) ==
     LET init == W32SeqFromBytesLE(ChaChaSigma) \o W32SeqFromBytesLE(key32)
                 \o <<counterW>> \o W32SeqFromBytesLE(nonce12)
         w    == ChaCha20Perm(init)
-    IN W32SeqToBytesLE([i \in 1..16 |-> W32Add(w[i], init[i])])
+    IN W32SeqToBytesLE(Strict([i \in 1..16 |-> W32Add(w[i], init[i])]))
 
 \* RFC 8439 2.3; counterNat < 2^31 (TLC integer range)
 ChaCha20Block(key32, counterNat, nonce12) == ChaCha20BlockW(key32, W32FromNat(counterNat), nonce12)
@@ -58,8 +57,8 @@ ChaCha20Block(key32, counterNat, nonce12) == ChaCha20BlockW(key32, W32FromNat(co
 \* RFC 8439 2.4: bytes XOR keystream; block j uses counter initialCounter + j (mod 2^32)
 ChaCha20XorW(key32, nonce12, counterW, bytes) ==
     LET nb == (Len(bytes) + 63) \div 64
-        ks == [j \in 1..nb |-> ChaCha20BlockW(key32, W32Add(counterW, W32FromNat(j - 1)), nonce12)]
-    IN [i \in 1..Len(bytes) |-> bytes[i] ^^ ks[((i - 1) \div 64) + 1][((i - 1) % 64) + 1]]
+        ks == Strict([j \in 1..nb |-> ChaCha20BlockW(key32, W32Add(counterW, W32FromNat(j - 1)), nonce12)])
+    IN Strict([i \in 1..Len(bytes) |-> bytes[i] ^^ ks[((i - 1) \div 64) + 1][((i - 1) % 64) + 1]])
 
 ChaCha20Xor(key32, nonce12, initialCounter, bytes) ==
     ChaCha20XorW(key32, nonce12, W32FromNat(initialCounter), bytes)
